@@ -153,16 +153,8 @@ impl ImageBuffer {
             [Self::F32(_), Self::F32(_), Self::F32(_)] => {
                 panic!("channels are already converted");
             }
-            [Self::I32(y), Self::I32(_), Self::I32(b)] => {
-                for (b, &y) in b.buf_mut().iter_mut().zip(y.buf()) {
-                    *b = b.saturating_add(y);
-                }
-            }
-            [Self::I16(y), Self::I16(_), Self::I16(b)] => {
-                for (b, &y) in b.buf_mut().iter_mut().zip(y.buf()) {
-                    *b = b.saturating_add(y);
-                }
-            }
+            [Self::I32(_), Self::I32(_), Self::I32(_)] => {}
+            [Self::I16(_), Self::I16(_), Self::I16(_)] => {}
             _ => panic!(),
         }
 
@@ -182,7 +174,8 @@ impl ImageBuffer {
             let px = *x;
             *y = px * m_x_lf;
             *x = py * m_y_lf;
-            *b *= m_b_lf;
+            // B is coded as (B - Y); add Y back as float so that 16-bit buffers don't saturate.
+            *b = (*b + py) * m_b_lf;
         }
 
         Ok([y, x, b])
